@@ -123,7 +123,7 @@ def sentAttrs : List DirEntry → List (Str × Val)
   | [] => []
   | d :: ds =>
     if d.name == Gen.Vinegar.argsName then sentAttrs ds
-    else if skipped d.name then sentAttrs ds
+    else if dropped d then sentAttrs ds
     else match d.value with
       | none => sentAttrs ds
       | some o => (d.name, sendable o) :: sentAttrs ds
@@ -141,8 +141,18 @@ theorem walkAttrs_eq (ds : List DirEntry) : walkAttrs ds = (sentAttrs ds).map pa
       · exact ih
       · cases hv : d.value <;> simp [ih, pairOf]
 
+/-- measured: a callable value is not sent -/
+theorem gen_skipsCallables : Gen.Vinegar.skipsCallables = true := by decide
+
+theorem dropped_false_of (d : DirEntry) (hs : skipped d.name = false) (hdata : d.isData = true) : dropped d = false := by
+  simp [dropped, hs, hdata]
+
+theorem skipped_of_dropped_false (d : DirEntry) (h : dropped d = false) : skipped d.name = false ∧ d.isData = true := by
+  simp only [dropped, gen_skipsCallables, Bool.true_and, Bool.or_eq_false_iff, Bool.not_eq_false'] at h
+  exact h
+
 theorem sentAttrs_mem (ds : List DirEntry) (d : DirEntry) (o : PyObj) (hd : d ∈ ds) (hv : d.value = some o)
-    (hs : skipped d.name = false) (ha : (d.name == Gen.Vinegar.argsName) = false) :
+    (hs : dropped d = false) (ha : (d.name == Gen.Vinegar.argsName) = false) :
     (d.name, sendable o) ∈ sentAttrs ds := by
   induction ds with
   | nil => cases hd
@@ -173,7 +183,12 @@ theorem sentAttrs_names_sub (ds : List DirEntry) : ∀ p ∈ sentAttrs ds,
       · split at hp
         · obtain ⟨⟨d, hd, hn⟩, h2⟩ := ih p hp; exact ⟨⟨d, List.mem_cons_of_mem _ hd, hn⟩, h2⟩
         · rcases List.mem_cons.mp hp with rfl | hp'
-          · refine ⟨⟨x, by simp, rfl⟩, ?_, ?_⟩ <;> simp_all
+          · have hdrop : dropped x = false := by
+              cases hc : dropped x
+              · rfl
+              · simp_all
+            refine ⟨⟨x, by simp, rfl⟩, (skipped_of_dropped_false x hdrop).1, ?_⟩
+            simp_all
           · obtain ⟨⟨d, hd, hn⟩, h2⟩ := ih p hp'; exact ⟨⟨d, List.mem_cons_of_mem _ hd, hn⟩, h2⟩
 
 theorem sentAttrs_nodup (ds : List DirEntry) (h : (ds.map (·.name)).Nodup) : ((sentAttrs ds).map (·.1)).Nodup := by
